@@ -21,7 +21,15 @@ func NameShapes() map[string][]byte {
 	c := "2.5.4.6"
 	ou := "2.5.4.11"
 	email := "1.2.840.113549.1.9.1"
+	dc := "0.9.2342.19200300.100.1.25"
+	private := "1.3.6.1.4.1.55555.7"
 	return map[string][]byte{
+		// names that crypto/x509's pkix.Name does not round-trip (attribute types it does not know,
+		// repeated types, an order other than C, O, OU, CN)
+		"dc":            der.Name([]der.ATV{{dc, der.TagIA5String, "org"}}, []der.ATV{{dc, der.TagIA5String, "example"}}, []der.ATV{{cn, der.TagUTF8String, "Directory CA"}}),
+		"two-ous":       der.Name([]der.ATV{{o, der.TagUTF8String, "Org"}}, []der.ATV{{ou, der.TagUTF8String, "Unit A"}}, []der.ATV{{ou, der.TagUTF8String, "Unit B"}}, []der.ATV{{cn, der.TagUTF8String, "OU CA"}}),
+		"cn-first":      der.Name([]der.ATV{{cn, der.TagUTF8String, "Reverse CA"}}, []der.ATV{{o, der.TagUTF8String, "Org"}}, []der.ATV{{c, der.TagPrintable, "DE"}}),
+		"private-oid":   der.Name([]der.ATV{{private, der.TagUTF8String, "site-7"}}, []der.ATV{{cn, der.TagUTF8String, "Private CA"}}),
 		"cn-utf8":       der.Name([]der.ATV{{cn, der.TagUTF8String, "Test CA"}}),
 		"cn-printable":  der.Name([]der.ATV{{cn, der.TagPrintable, "Test CA"}}),
 		"c-o-cn":        der.Name([]der.ATV{{c, der.TagPrintable, "DE"}}, []der.ATV{{o, der.TagUTF8String, "Örg Ünïcode GmbH"}}, []der.ATV{{cn, der.TagUTF8String, "Issuing CA 1"}}),
